@@ -233,6 +233,10 @@ impl MultiRecordLog {
 
         for (queue_id, queue) in self.in_mem_queues.empty_queues() {
             let next_position = queue.next_position();
+            #[cfg(mrecordlog_verif)]
+            crate::verif_hooks::record(crate::verif_hooks::Event::GcRecordPosition(
+                queue_id.to_string(),
+            ));
             let record = MultiPlexedRecord::RecordPosition {
                 queue: queue_id,
                 position: next_position,
